@@ -484,6 +484,69 @@ def check_c10(ctx: Ctx, job):
                  f"policy {pol}: observation {d}: consumer saw {got[d:d+3]} but the failing items {sorted(cfg.get('fail', []))}/{sorted(cfg.get('collate_fail') or [])} imply {want[d:d+3]}")
 
 
+def check_c10_epoch_start(ctx: Ctx, job):
+    """The dataset's __iter__ raises at the start of a LATER epoch (persistent workers keep the dataset object, so the
+    failure is transient): that epoch's iter() raises the dataset's exception type, and the consumer can carry on - every
+    other epoch is delivered completely."""
+    cfg, seed, E = job["cfg"], job["seed"], job["epochs"]
+    clean = dict(cfg)
+    clean["start_fail"] = {}
+    ref, _, _ = run_stream(clean, "random", seed + 1, 1)
+    failing = {e for calls in cfg["start_fail"].values() for e in calls}
+    want: List[Any] = []
+    for e in range(1, E + 1):
+        want += [("error-at-iter", "ValueError")] if e in failing else list(ref)
+    got: List[Any] = []
+    with session_for(job.get("policy", "random"), seed, cfg["W"]) as s:
+        torch.manual_seed(1)
+        loader = sdl.build(cfg)
+        for e in range(1, E + 1):
+            try:
+                s.begin_op()
+                it = iter(loader)
+            except vsched.VHang as ex:
+                got.append(("hang", str(ex)))
+                break
+            except Exception as ex:  # noqa: BLE001
+                got.append(("error-at-iter", type(ex).__name__))
+                continue
+            while len(got) < len(want) + 3:
+                o = sdl.take(it, s)
+                got.append(o)
+                if o[0] in ("stop", "hang"):
+                    break
+            if got and got[-1][0] == "hang":
+                break
+        del loader
+        gc.collect()
+    ctx.case("ko_c10_epoch_start", cfg, cfg["W"] > 0)
+    ctx.count("epoch_start_fail:W=%d" % cfg["W"])
+    if got != want:
+        d = C01._first_diff(got, want)
+        ctx.fail("C10:epoch_start_error", job,
+                 f"__iter__ of the dataset raises ValueError at the start of epoch(s) {sorted(failing)} (persistent_workers={cfg.get('persistent')}): "
+                 f"observation {d}: consumer saw {got[d:d+3]} but expected {want[d:d+3]} (every other epoch complete)")
+
+
+def gen_c10_epoch_start(ctx: Ctx, n: int):
+    jobs = []
+    for i in range(n):
+        W = ctx.rng.choice([0, 1, 2, 3])
+        cfg: Dict[str, Any] = {"kind": "iter_start_fail", "W": W, "bs": ctx.rng.choice([None, 1, 2, 3]), "drop_last": False,
+                               "interval": ctx.rng.choice([1, 2, None]), "sizes": [ctx.rng.randrange(1, 6) for _ in range(max(W, 1))]}
+        if W > 0:
+            cfg["pf"] = ctx.rng.choice([1, 2])
+            cfg["persistent"] = True
+        E = ctx.rng.choice([3, 4])
+        fails: Dict[str, List[int]] = {}
+        for e in ctx.rng.sample(range(2, E + 1), ctx.rng.choice([1, 1, 2]) if E > 3 else 1):
+            for w in ctx.rng.sample(range(max(W, 1)), ctx.rng.randrange(1, max(W, 1) + 1)):
+                fails.setdefault(str(w), []).append(e)
+        cfg["start_fail"] = fails
+        jobs.append({"cfg": cfg, "seed": ctx.rng.randrange(1 << 30), "epochs": E, "policy": ctx.rng.choice(POLICIES)})
+    return jobs
+
+
 def gen_c10(ctx: Ctx, n: int):
     jobs = []
     for i in range(n):
